@@ -152,9 +152,10 @@ pub fn c04(rng: &mut Rng, tier: &str, idx: usize) -> Case {
 // ---------------------------------------------------------------- C05
 
 fn gen_ks(rng: &mut Rng, n: usize) -> Vec<u32> {
-    let mode = rng.below(6);
+    let mode = rng.below(7);
     (0..n)
         .map(|_| match mode {
+            6 => *rng.pick(&[64u32, 64, 64, 63, 65, 96, 128, 0, 32]), // exact 1.0 next to larger scores
             0 => *rng.pick(&[0u32, 32, 64]),      // many ties
             1 => 17,                              // constant
             2 => rng.below(4) as u32 * 16,
@@ -175,6 +176,20 @@ fn gen_subset(rng: &mut Rng, ids: &[u32], size: usize) -> Vec<u32> {
 }
 
 pub fn c05(rng: &mut Rng, _tier: &str, idx: usize) -> Case {
+    if idx % 52 == 27 {
+        // one-row matrices at the u16 limit of a dimension: 1 x 65 535 (rows + cols beyond the
+        // limit, each dimension within it), 1 x 65 534, 1 x 65 536 (documented panic), 1 x 40 000
+        let mut c = Case::new("huge-matrix");
+        let n = [65_535usize, 65_534, 40_000, 65_536][(idx / 52) % 4];
+        for comb in ["bma", "funsimavg", "funsimmax"] {
+            let ks: Vec<u32> = (0..n).map(|_| rng.below(130) as u32).collect();
+            c.op(format!("matsim1 {} {}", comb, ids_str(&ks)));
+            c.stat("matrices", 1);
+        }
+        c.stat(&format!("huge_matrix_1x{n}"), 1);
+        c.nontrivial = true;
+        return c;
+    }
     let mut c = Case::new("setsim");
     let (mut f, _) = gen_facts(rng, &DagOpts { max_terms: 20, with_roots: false, max_recs: 2 });
     let mut used: Vec<u32> = f.terms.iter().map(|t| t.0).collect();
@@ -210,7 +225,7 @@ pub fn c05(rng: &mut Rng, _tier: &str, idx: usize) -> Case {
         };
         let a = gen_subset(rng, &ids, na);
         let b = if rng.chance(1, 8) { a.clone() } else { gen_subset(rng, &ids, nb) };
-        let spec = format!("{}{}", *rng.pick(&["s", "t", "t", "n", "n", "m"]), rng.below(64));
+        let spec = format!("{}{}", *rng.pick(&["s", "t", "t", "n", "n", "m", "u", "u", "v"]), rng.below(64));
         c.op(format!("setsim 0 {} {} {} {}", spec, combs[(i + idx) % 3], ids_str(&a), ids_str(&b)));
         c.stat("set_pairs", 1);
         if a.len() != b.len() && !a.is_empty() && !b.is_empty() {
@@ -234,7 +249,7 @@ pub fn c05(rng: &mut Rng, _tier: &str, idx: usize) -> Case {
                 qs.push((gen_subset(rng, &ids, na), gen_subset(rng, &ids, nb)));
             }
         }
-        let spec = format!("{}{}", *rng.pick(&["s", "t", "t", "t", "n", "n"]), rng.below(64));
+        let spec = format!("{}{}", *rng.pick(&["s", "t", "t", "t", "n", "n", "u", "v"]), rng.below(64));
         let toks: Vec<String> = qs.iter().map(|(a, b)| format!("{}:{}", ids_str(a), ids_str(b))).collect();
         c.op(format!("cachesim 0 {} {} {}", spec, rng.pick(&combs), toks.join(" ")));
         c.stat("cached_queries", nq as u64);
